@@ -1,8 +1,18 @@
 package main
 
 import (
+	"os"
+
 	"github.com/sassoftware/relic/v8/verifharness/core"
-	_ "github.com/sassoftware/relic/v8/verifharness/p/c15"
+	"github.com/sassoftware/relic/v8/verifharness/p/c15"
 )
 
-func main() { core.Main() }
+func main() {
+	// token/worker's spawn() re-executes this binary as `<argv0> worker <config> <token>`: the lifecycle command of the C15
+	// harness runs real child processes that way
+	if len(os.Args) == 4 && os.Args[1] == "worker" {
+		c15.WorkerChild()
+		return
+	}
+	core.Main()
+}
